@@ -385,4 +385,197 @@ Proof.
     reflexivity.
 Qed.
 
+(* ------------------------------------------------------------------ several calls *)
+Lemma run_U cs : forall u el,
+  forallb plain cs = true ->
+  run_from cfg (ustate u el) cs =
+  (ustate (urun cfg u cs) el, concat (upieces cfg u cs), concat (map call_err cs)).
+Proof.
+  induction cs as [|c cs IH]; intros u el Hp; [reflexivity|].
+  cbn [forallb] in Hp. apply andb_true_iff in Hp. destruct Hp as [Hc Hcs].
+  cbn [run_from]. rewrite (step_U u el c Hc), (IH _ el Hcs). reflexivity.
+Qed.
+
+(* a whole segment under lock *)
+Record lres := mkLres { lr_buf : bytes; lr_direct : bytes; lr_u : ust; lr_line : bytes }.
+Fixpoint lrun (u : ust) (line : bytes) (seg : list call) : lres :=
+  match seg with
+  | [] => mkLres [] [] u line
+  | c :: r =>
+    let p := lpiece u line c in
+    let q := lrun (snd (fst p)) (snd p) r in
+    mkLres (fst (fst (fst p)) ++ lr_buf q) (snd (fst (fst p)) ++ lr_direct q) (lr_u q) (lr_line q)
+  end.
+
+Lemma run_L seg : forall u el line buf,
+  forallb segcall seg = true ->
+  exists el',
+    run_from cfg (lstate u el line buf) seg =
+    (lstate (lr_u (lrun u line seg)) el' (lr_line (lrun u line seg)) (buf ++ lr_buf (lrun u line seg)),
+     lr_direct (lrun u line seg), concat (map call_err seg)).
+Proof.
+  induction seg as [|c seg IH]; intros u el line buf Hp.
+  - exists el. cbn [run_from lrun lr_u lr_line lr_buf lr_direct map concat]. rewrite app_nil_r. reflexivity.
+  - cbn [forallb] in Hp. apply andb_true_iff in Hp. destruct Hp as [Hc Hs].
+    destruct (step_L u el line buf c Hc) as [el1 H1].
+    destruct (IH (snd (fst (lpiece u line c))) el1 (snd (lpiece u line c))
+                 (buf ++ fst (fst (fst (lpiece u line c)))) Hs) as [el2 H2].
+    exists el2. cbn [run_from]. rewrite H1, H2.
+    cbn [lrun lr_u lr_line lr_buf lr_direct map concat]. rewrite <- app_assoc. reflexivity.
+Qed.
+
+(* the buffer's end and [u_owed] stay in step *)
+Lemma body_inv (X : bytes) owed e code out :
+  (owed = false -> ends_blank X = true) ->
+  prints code out = true ->
+  ends_blank (X ++ fst (body cfg owed e code out)) = negb (snd (body cfg owed e code out)).
+Proof.
+  clear Hnq Hfmt Hdumb.
+  intros HX Hp. unfold prints in Hp. unfold body, failed_block.
+  destruct (Z.eqb code 0) eqn:Hc; destruct (is_empty out) eqn:Ho; cbn [negb orb] in Hp;
+    try discriminate; cbn [fst snd]; rewrite ?negb_involutive.
+  - destruct (shown_output cfg out) as [|x sh] eqn:Hs.
+    + rewrite app_nil_r. destruct owed; [apply ends_blank_app_lf|].
+      rewrite app_nil_r. rewrite ends_blank_nil. apply HX; reflexivity.
+    + rewrite app_assoc. apply ends_blank_app_ne. discriminate.
+  - cbn [negb]. rewrite !app_assoc. apply ends_blank_app_lf.
+  - destruct (shown_output cfg out) as [|x sh] eqn:Hs.
+    + rewrite app_nil_r, ends_blank_nil. rewrite !app_assoc. apply ends_blank_app_lf.
+    + rewrite !app_assoc. apply ends_blank_app_ne. discriminate.
+Qed.
+
+Lemma lpiece_inv u line c buf :
+  ends_blank buf = negb (u_owed u) ->
+  ends_blank (buf ++ fst (fst (fst (lpiece u line c)))) = negb (u_owed (snd (fst (lpiece u line c)))).
+Proof.
+  clear Hnq Hfmt Hdumb.
+  intros Hb. destruct u as [cn ow i]. cbn [u_owed] in Hb.
+  destruct c as [e|e|e|e code out| | |b| |m|m|m]; unfold lpiece; cbn [u_cn u_owed u_idx fst snd];
+    rewrite ?app_nil_r; try exact Hb.
+  destruct (prints code out) eqn:Hp; cbn [fst snd u_owed]; [|rewrite app_nil_r; exact Hb].
+  rewrite app_assoc. apply body_inv; [|exact Hp].
+  intros ->. cbn [negb] in Hb.
+  destruct (is_empty (if shows_status cfg then sline cfg i (cn_print cn) e else line)).
+  - rewrite app_nil_r. exact Hb.
+  - rewrite app_assoc. apply ends_blank_app_lf.
+Qed.
+
+Lemma lrun_inv seg : forall u line buf,
+  ends_blank buf = negb (u_owed u) ->
+  ends_blank (buf ++ lr_buf (lrun u line seg)) = negb (u_owed (lr_u (lrun u line seg))).
+Proof.
+  clear Hnq Hfmt Hdumb.
+  induction seg as [|c seg IH]; intros u line buf Hb.
+  - cbn [lrun lr_buf lr_u]. rewrite app_nil_r. exact Hb.
+  - cbn [lrun lr_buf lr_u]. rewrite app_assoc. apply IH. apply lpiece_inv. exact Hb.
+Qed.
+
+(* ------------------------------------------------------------------ one console window *)
+(* Started e (console) ; seg ; Finished e' code out (console)  -- from a state that is not locked.
+   In a real build e' = e (the console pool has depth 1). *)
+Definition window_out (u : ust) (e : edge) (seg : list call) (e' : edge) (code : Z) (out : bytes)
+  : bytes * ust :=
+  let u1 := mkU (cn_step (u_cn u) (Started e)) false (S (u_idx u)) in
+  let r := lrun u1 [] seg in
+  let u2 := lr_u r in
+  let bd := body cfg (u_owed u2) e' code out in
+  ((* at the start: the console command's own status line, and the newline owed so far *)
+   sline_direct cfg (u_idx u) (u_cn u1) e ++ (if u_owed u then [b_lf] else []) ++
+   (* while it runs: nothing but Info lines *)
+   lr_direct r ++
+   (* when it finishes: the buffer (with a newline IN FRONT when the buffer is unterminated), the
+      pending progress line, then the command's own FAILED block / output *)
+   (if u_owed u2 then [b_lf] else []) ++ lr_buf r ++
+   (if is_empty (lr_line r) then [] else cstr (lr_line r) ++ [b_lf]) ++ fst bd,
+   mkU (cn_step (u_cn u2) (Finished e' code out)) (snd bd) (S (u_idx u2))).
+
+Lemma run_from_app s cs1 : forall cs2,
+  run_from cfg s (cs1 ++ cs2) =
+  let '(s1, o1, e1) := run_from cfg s cs1 in
+  let '(s2, o2, e2) := run_from cfg s1 cs2 in (s2, o1 ++ o2, e1 ++ e2).
+Proof.
+  clear Hnq Hfmt Hdumb.
+  revert s. induction cs1 as [|c cs1 IH]; intros s cs2.
+  - cbn [app run_from]. destruct (run_from cfg s cs2) as [[s2 o2] e2]. reflexivity.
+  - cbn [app run_from]. destruct (step cfg s c) as [[s1 o1] e1]. rewrite IH.
+    destruct (run_from cfg s1 cs1) as [[s2 o2] e2].
+    destruct (run_from cfg s2 cs2) as [[s3 o3] e3]. rewrite !app_assoc. reflexivity.
+Qed.
+
+Lemma run_window u el e seg e' code out :
+  e_console e = true -> e_console e' = true -> forallb segcall seg = true ->
+  exists el',
+  run_from cfg (ustate u el) (Started e :: seg ++ [Finished e' code out]) =
+  (ustate (snd (window_out u e seg e' code out)) el', fst (window_out u e seg e' code out),
+   concat (map call_err seg)).
+Proof.
+  intros He He' Hs.
+  set (u1 := mkU (cn_step (u_cn u) (Started e)) false (S (u_idx u))).
+  pose proof (lrun_inv seg u1 [] [] eq_refl) as Hinv. cbn [app] in Hinv.
+  destruct (run_L seg u1 el [] [] Hs) as [el' HL].
+  exists el'.
+  cbn [run_from]. rewrite (step_lock u el e He). fold u1.
+  rewrite run_from_app, HL. cbn [app].
+  cbn [run_from]. rewrite (step_unlock _ el' _ _ e' code out He').
+  unfold window_out. fold u1.
+  rewrite Hinv, negb_involutive. cbn [fst snd].
+  rewrite !app_nil_r, <- app_assoc. reflexivity.
+Qed.
+
+(* ------------------------------------------------------------------ whole call sequences *)
+(* a call sequence cut into plain calls and console windows *)
+Inductive item :=
+| IPlain (c : call)
+| IWindow (e : edge) (seg : list call) (e' : edge) (code : Z) (out : bytes).
+
+Definition item_ok (it : item) : bool :=
+  match it with
+  | IPlain c => plain c
+  | IWindow e seg e' _ _ => e_console e && e_console e' && forallb segcall seg
+  end.
+Definition item_calls (it : item) : list call :=
+  match it with
+  | IPlain c => [c]
+  | IWindow e seg e' code out => Started e :: seg ++ [Finished e' code out]
+  end.
+Definition item_out (u : ust) (it : item) : bytes * ust :=
+  match it with
+  | IPlain c => upiece cfg u c
+  | IWindow e seg e' code out => window_out u e seg e' code out
+  end.
+Fixpoint items_out (u : ust) (its : list item) : list bytes :=
+  match its with
+  | [] => []
+  | it :: r => fst (item_out u it) :: items_out (snd (item_out u it)) r
+  end.
+Fixpoint items_run (u : ust) (its : list item) : ust :=
+  match its with
+  | [] => u
+  | it :: r => items_run (snd (item_out u it)) r
+  end.
+
+Lemma run_items its : forall u el,
+  forallb item_ok its = true ->
+  exists el' errs,
+    run_from cfg (ustate u el) (flat_map item_calls its) =
+    (ustate (items_run u its) el', concat (items_out u its), errs).
+Proof.
+  induction its as [|it its IH]; intros u el Hok.
+  - exists el, []. reflexivity.
+  - cbn [forallb] in Hok. apply andb_true_iff in Hok. destruct Hok as [Hit Hits].
+    cbn [flat_map]. rewrite run_from_app.
+    destruct it as [c|e seg e' code out]; cbn [item_ok] in Hit.
+    + cbn [item_calls run_from]. rewrite (step_U u el c Hit).
+      destruct (IH (snd (upiece cfg u c)) el Hits) as [el' [errs H]].
+      exists el', (call_err c ++ [] ++ errs). rewrite H.
+      cbn [items_out items_run item_out concat]. rewrite app_nil_r. reflexivity.
+    + apply andb_true_iff in Hit. destruct Hit as [Hee Hseg].
+      apply andb_true_iff in Hee. destruct Hee as [He He'].
+      cbn [item_calls].
+      destruct (run_window u el e seg e' code out He He' Hseg) as [el1 H1]. rewrite H1.
+      destruct (IH (snd (window_out u e seg e' code out)) el1 Hits) as [el' [errs H]].
+      exists el', (concat (map call_err seg) ++ errs). rewrite H.
+      cbn [items_out items_run item_out concat]. reflexivity.
+Qed.
+
 End Dumb.
